@@ -49,6 +49,22 @@ pub enum SData {
     Timestamp(chrono::DateTime<chrono::FixedOffset>),
 }
 
+thread_local! {
+    /// How the lengths announced to the serializer relate to the true ones (they are only hints):
+    /// 0 true, 1 usize::MAX, 2 2^40, 3 a thousand too many, 4 zero, 5 usize::MAX / 8.
+    pub static HINT_MODE: std::cell::Cell<u8> = std::cell::Cell::new(0);
+}
+fn announced(len: usize) -> usize {
+    match HINT_MODE.with(|m| m.get()) {
+        1 => usize::MAX,
+        2 => 1 << 40,
+        3 => len + 1000,
+        4 => 0,
+        5 => usize::MAX / 8,
+        _ => len,
+    }
+}
+
 impl Serialize for SData {
     fn serialize<S: Serializer>(&self, s: S) -> Result<S::Ok, S::Error> {
         match self {
@@ -76,35 +92,35 @@ impl Serialize for SData {
             SData::NewtypeStruct(n, d) => s.serialize_newtype_struct(n, &**d),
             SData::NewtypeVariant(n, i, v, d) => s.serialize_newtype_variant(n, *i, v, &**d),
             SData::Seq(l, hint) => {
-                let mut q = s.serialize_seq(if *hint { Some(l.len()) } else { None })?;
+                let mut q = s.serialize_seq(if *hint { Some(announced(l.len())) } else { None })?;
                 for x in l {
                     q.serialize_element(x)?;
                 }
                 q.end()
             }
             SData::Tuple(l) => {
-                let mut q = s.serialize_tuple(l.len())?;
+                let mut q = s.serialize_tuple(announced(l.len()))?;
                 for x in l {
                     q.serialize_element(x)?;
                 }
                 q.end()
             }
             SData::TupleStruct(n, l) => {
-                let mut q = s.serialize_tuple_struct(n, l.len())?;
+                let mut q = s.serialize_tuple_struct(n, announced(l.len()))?;
                 for x in l {
                     q.serialize_field(x)?;
                 }
                 q.end()
             }
             SData::TupleVariant(n, i, v, l) => {
-                let mut q = s.serialize_tuple_variant(n, *i, v, l.len())?;
+                let mut q = s.serialize_tuple_variant(n, *i, v, announced(l.len()))?;
                 for x in l {
                     q.serialize_field(x)?;
                 }
                 q.end()
             }
             SData::Map(es, hint, entry_api) => {
-                let mut q = s.serialize_map(if *hint { Some(es.len()) } else { None })?;
+                let mut q = s.serialize_map(if *hint { Some(announced(es.len())) } else { None })?;
                 for (k, v) in es {
                     if *entry_api {
                         q.serialize_entry(k, v)?;
@@ -123,7 +139,7 @@ impl Serialize for SData {
                 q.end()
             }
             SData::StructVariant(n, i, v, fs) => {
-                let mut q = s.serialize_struct_variant(n, *i, v, fs.len())?;
+                let mut q = s.serialize_struct_variant(n, *i, v, announced(fs.len()))?;
                 for (k, x) in fs {
                     q.serialize_field(k, x)?;
                 }
